@@ -2374,9 +2374,33 @@ func (c *Conn) negotiateVersionClient(ctx context.Context) ([]*dtlsflight.Packet
 		return nil, err
 	}
 
+	// Nothing else retransmits this first ClientHello: the handshake FSM only
+	// starts once a version has been chosen.
+	retransmitInterval := c.handshakeConfig.InitialRetransmitInterval
+	nextRetransmit := time.Now().Add(retransmitInterval)
 	for {
-		if err := c.readAndBufferNoFSM(ctx); err != nil {
-			return nil, err
+		// The deadline is only moved by a retransmission: datagrams that do not
+		// decide the version must not postpone it.
+		readCtx, cancel := context.WithDeadline(ctx, nextRetransmit)
+		err := c.readAndBufferNoFSM(readCtx)
+		cancel()
+		if err != nil {
+			if !errors.Is(err, context.DeadlineExceeded) || ctx.Err() != nil {
+				return nil, err
+			}
+			// RFC 6347 Section 4.2.4.1: exponential backoff, capped at 60 seconds.
+			if !c.handshakeConfig.DisableRetransmitBackoff {
+				retransmitInterval *= 2
+			}
+			if retransmitInterval > 60*time.Second {
+				retransmitInterval = 60 * time.Second
+			}
+			if err := c.writePackets(ctx, pkts); err != nil {
+				return nil, err
+			}
+			nextRetransmit = time.Now().Add(retransmitInterval)
+
+			continue
 		}
 		if ok, err := c.pickVersionFromServerResponse(); err != nil {
 			var negotiationAlert *alert.Alert
